@@ -1,14 +1,19 @@
 // C19 -- lookups are logarithmic; a correct hint makes insertion search-free; inline SmallSet lookups are <= 2N+2.
 // Counting comparator; complete grid: every n in 0..NMAX, every key rank (present and absent), every lookup and
 // insert / emplace / erase(key); every CORRECT hint (hint == lower_bound(v)) for every absent and present key.
-//   -DC19_VEC 0 amc::vector | 1 SmallVector<int,4> | 3 std::vector     -DC19_CMP 0 less | 1 greater
+//   -DC19_VEC 0 amc::vector | 1 SmallVector<int,4> | 3 std::vector     -DC19_CMP 0 less | 1 greater | 2 transparent
+//   -DC19_ELEM 0 int | 1 Key: a class type converting from int, with a (int,int) constructor and a copy constructor but no
+//              noexcept move ("legacy" type): emplace / emplace_hint then receive constructor ARGUMENTS rather than a value,
+//              and every trait-selected insertion path for types whose move may throw is instantiated
 #include <amc/flatset.hpp>
 #include <amc/smallset.hpp>
 #include <amc/smallvector.hpp>
 
+#include <algorithm>
 #include <cstdio>
 #include <set>
 #include <string>
+#include <type_traits>
 #include <vector>
 
 #ifndef C19_VEC
@@ -18,7 +23,29 @@
 #define C19_CMP 0
 #endif
 
+#ifndef C19_ELEM
+#define C19_ELEM 0
+#endif
+
 static long g_calls = 0;
+#if C19_ELEM == 1
+struct Key {
+  int k;
+  Key(int x = 0) : k(x) {}
+  Key(int a, int b) : k(a + b) {}
+  Key(const Key &o) : k(o.k) {}
+  Key &operator=(const Key &o) {
+    k = o.k;
+    return *this;
+  }
+};
+static_assert(!std::is_nothrow_move_constructible<Key>::value && std::is_copy_constructible<Key>::value, "Key is a legacy type");
+typedef Key ELT;
+static inline int val(const Key &x) { return x.k; }
+#else
+typedef int ELT;
+static inline int val(int x) { return x; }
+#endif
 /// heterogeneous "bucket" key: equivalent to every element x with x / 64 == b (a run of up to 32 elements)
 struct Bucket {
   int b;
@@ -39,26 +66,26 @@ struct CntTransparent {
   }
 };
 struct CntLess {
-  bool operator()(int a, int b) const {
+  bool operator()(const ELT &a, const ELT &b) const {
     ++g_calls;
 #if C19_CMP == 0
-    return a < b;
+    return val(a) < val(b);
 #else
-    return a > b;
+    return val(a) > val(b);
 #endif
   }
 };
 #if C19_VEC == 0
-typedef amc::vector<int> UV;
+typedef amc::vector<ELT> UV;
 #elif C19_VEC == 1
-typedef amc::SmallVector<int, 4> UV;
+typedef amc::SmallVector<ELT, 4> UV;
 #else
-typedef std::vector<int, amc::allocator<int> > UV;
+typedef std::vector<ELT, amc::allocator<ELT> > UV;
 #endif
 #if C19_CMP == 2
 typedef amc::FlatSet<int, CntTransparent, amc::allocator<int>, UV> FS;
 #else
-typedef amc::FlatSet<int, CntLess, amc::allocator<int>, UV> FS;
+typedef amc::FlatSet<ELT, CntLess, amc::allocator<ELT>, UV> FS;
 #endif
 
 static long g_eval = 0, g_nontrivial = 0;
@@ -95,7 +122,7 @@ int main(int argc, char **argv) {
     FS base;
     {
       UV v;
-      for (long i = 0; i < n; ++i) v.push_back((int)(2 * i + 2));  // even keys 2,4,..,2n
+      for (long i = 0; i < n; ++i) v.push_back(ELT((int)(2 * i + 2)));  // even keys 2,4,..,2n
 #if C19_CMP == 1
       std::reverse(v.begin(), v.end());
 #endif
@@ -150,6 +177,27 @@ int main(int argc, char **argv) {
         ++g_eval;
         if (c > 8) fail(std::string(idb) + "|emplace_hint(correct hint)|" + std::to_string(c) + " comparator calls > 8");
         if (s4.size() != s1.size()) fail(std::string(idb) + "|hinted insertion changed the result");
+#if C19_ELEM == 1
+        {
+          // constructor arguments instead of a value: (int) and (int, int)
+          FS s7 = base, s8 = base, s9 = base;
+          auto h7 = s7.lower_bound(k);
+          c = count([&] { s7.emplace_hint(h7, k - 1, 1); });
+          ++g_eval;
+          ++g_nontrivial;
+          if (n >= 8 && n < 16) hint_max_small = std::max(hint_max_small, c);
+          if (n >= 100) hint_max_large = std::max(hint_max_large, c);
+          if (c > 8) fail(std::string(idb) + "|emplace_hint(correct hint, two arguments)|" + std::to_string(c) + " comparator calls > 8");
+          c = count([&] { s8.emplace(k - 1, 1); });
+          ++g_eval;
+          if (c > bound) fail(std::string(idb) + "|emplace(two arguments)|" + std::to_string(c) + " comparator calls > " + std::to_string(bound));
+          const ELT lv(k);
+          c = count([&] { s9.insert(lv); });
+          ++g_eval;
+          if (c > bound) fail(std::string(idb) + "|insert(const&)|" + std::to_string(c) + " comparator calls > " + std::to_string(bound));
+          if (s7.size() != s1.size() || s8.size() != s1.size() || s9.size() != s1.size()) fail(std::string(idb) + "|argument-pack insertion changed the result");
+        }
+#endif
         // correctly hinted insertion of a node handle
         FS s6 = base, donor;
         donor.insert(k);
@@ -205,7 +253,7 @@ int main(int argc, char **argv) {
       }                                                                                                                    \
     }                                                                                                                      \
   }
-  if (g_only.empty()) {
+  if (g_only.empty() && C19_ELEM == 0) {
     SS_CASE(1) SS_CASE(2) SS_CASE(3) SS_CASE(5) SS_CASE(8) SS_CASE(16)
   }
   std::printf("{\"evaluations\":%ld,\"distinct_nontrivial\":%ld,\"nmax\":%ld,\"max_calls_per_lookup\":%ld,\"max_calls_correct_hint_n8_15\":%ld,\"max_calls_correct_hint_n_ge_100\":%ld,\"failures\":[",
